@@ -133,6 +133,8 @@ type Contract struct {
 	Notes    []string
 	Ghost    []GhostStmt
 	Depth    string
+	RecDec   SExpr  // `recursion decreases e`: e (over the parameters) is >= 0 and strictly smaller at every self-call
+	RecDecText string
 }
 
 // CallAssert: `callsite F N requires [label:] expr` - at the N-th call (in source order) of a function named F inside
@@ -142,6 +144,9 @@ type CallAssert struct {
 	Callee string
 	Ord    int
 	Clause Clause
+	// Closure: `closure F N ensures e` - the function literal handed to that call establishes e whenever it runs
+	// (from an arbitrary heap state), e being over the enclosing function's variables
+	Closure bool
 }
 
 type CallbackSpec struct {
@@ -218,7 +223,7 @@ type tok struct {
 var clauseKW = map[string]bool{
 	"requires": true, "ensures": true, "modifies": true, "loop": true, "invariant": true, "decreases": true,
 	"property": true, "wraps": true, "func": true, "pred": true, "pure": true, "trusted": true, "inline": true,
-	"frame": true, "callers": true, "type": true, "package": true, "nosafety": true, "note": true, "recursion": true, "ghost": true, "argpolicy": true, "ufunc": true, "abstract": true, "axiom": true, "purecalls": true, "nocallbacks": true, "callsite": true, "callback": true,
+	"frame": true, "callers": true, "type": true, "package": true, "nosafety": true, "note": true, "recursion": true, "ghost": true, "argpolicy": true, "ufunc": true, "abstract": true, "axiom": true, "purecalls": true, "nocallbacks": true, "callsite": true, "closure": true, "callback": true,
 }
 
 func lexSpec(lines []string, lineNos []int) ([]tok, error) {
@@ -729,7 +734,13 @@ func parseSpecFile(path string, defaultPkg string) (sf *SpecFile, err error) {
 				cur.Notes = append(cur.Notes, s)
 			}
 		case "recursion":
-			cur.Depth = p.next().s
+			if p.isKW("decreases") {
+				p.next()
+				cur.RecDec = p.expr(1)
+				cur.RecDecText = cur.RecDec.String()
+			} else {
+				cur.Depth = p.next().s
+			}
 		case "ghost":
 			// ghost field Type.$name T
 			if !p.isKW("field") {
@@ -761,11 +772,11 @@ func parseSpecFile(path string, defaultPkg string) (sf *SpecFile, err error) {
 				cb.Cond = p.expr(1)
 			}
 			cur.Callbacks = append(cur.Callbacks, cb)
-		case "callsite":
-			ca := CallAssert{Callee: p.next().s}
+		case "callsite", "closure":
+			ca := CallAssert{Callee: p.next().s, Closure: t.s == "closure"}
 			ca.Ord, _ = strconv.Atoi(p.next().s)
-			if !p.isKW("requires") {
-				p.fail("callsite F N requires ...")
+			if !(p.isKW("requires") && !ca.Closure) && !(p.isKW("ensures") && ca.Closure) {
+				p.fail("callsite F N requires ... / closure F N ensures ...")
 			}
 			p.next()
 			label, e, line := p.clauseExpr()
